@@ -148,6 +148,7 @@ type task struct {
 	prio     int
 	holds    int // locks this task holds according to the hook events
 	released int // how often the scheduler has let this task run
+	lastRun  int // step at which it was last released
 	finished chan struct{}
 }
 
@@ -228,6 +229,7 @@ type Probes struct {
 	SpecPassed         int // a task released in front of a held lock did NOT block: the code made a non-blocking attempt
 	TrackingCorrected  int // tracking said "held" but the real lock was free (code unlocks earlier than its hooks say)
 	InFlightAtFault    int
+	FairPhase          int // the step cap was reached under an unfair strategy and the run continued least-recently-run
 }
 
 // RunResult is what a scheduled execution produced.
@@ -476,6 +478,7 @@ func (s *Sched) Run(bodies []func(t *TaskCtx)) *RunResult {
 	enabled := make([]*task, 0, n)
 	var lockWait, gated []*task
 	step := 0
+	fairFrom := 0
 	if s.Cfg.Speculate && !s.canSpeculate() {
 		// hand the never-started tasks a free run so that they end
 		s.res.SpecSkipped = true
@@ -594,9 +597,19 @@ func (s *Sched) Run(bodies []func(t *TaskCtx)) *RunResult {
 				break
 			}
 		}
+		if t == nil && fairFrom > 0 {
+			// fair phase (see the step cap below): least recently run first
+			t = enabled[0]
+			for _, u := range enabled[1:] {
+				if u.lastRun < t.lastRun || (u.lastRun == t.lastRun && u.id < t.id) {
+					t = u
+				}
+			}
+		}
 		if t == nil {
 			t = s.pick(enabled, last, step)
 		}
+		t.lastRun = step
 		if last != nil && t != last && len(enabled) > 0 && enabled[0] == last {
 			s.res.Probes.Preemptions++
 		}
@@ -673,7 +686,15 @@ func (s *Sched) Run(bodies []func(t *TaskCtx)) *RunResult {
 		}
 		last = t
 		step++
-		if s.Cfg.StepCap > 0 && step >= s.Cfg.StepCap && unfinished > 0 {
+		if s.Cfg.StepCap > 0 && step >= s.Cfg.StepCap && unfinished > 0 && fairFrom == 0 {
+			// An unfair strategy (sticky, PCT) may keep releasing a task
+			// that legitimately waits for another one in a retry loop.
+			// Bounded progress is demanded of a FAIR schedule only: go on
+			// least-recently-run for as many steps again.
+			fairFrom = step
+			s.res.Probes.FairPhase++
+		}
+		if fairFrom > 0 && step >= 2*s.Cfg.StepCap && unfinished > 0 {
 			s.res.StepCap = true
 			break
 		}
